@@ -67,7 +67,17 @@ impl QBNumberCast<i64> for f32 {
 
 impl QBNumberCast<f32> for f64 {
     fn try_cast(&self) -> Result<f32, LintError> {
-        Ok(*self as f32)
+        if self.is_finite() {
+            let f = *self as f32;
+            if f.is_finite() {
+                Ok(f)
+            } else {
+                // too big for a SINGLE
+                Err(LintError::Overflow)
+            }
+        } else {
+            Err(LintError::NotFiniteNumber)
+        }
     }
 }
 
